@@ -239,7 +239,7 @@ class TagAlg(Algorithm):
 
     def step(self):
         from platypus import RandomGenerator
-        if SLOW_FIRST["on"]:
+        if SLOW_FIRST["on"] and self.nfe == 0:
             time.sleep(UNIT * 2 * max(0, 3 - self.tag[2]))
         sols = [RandomGenerator().generate(self.problem) for _ in range(max(1, self.batch))]
         self.evaluate_all(sols)
@@ -262,8 +262,8 @@ class TagNSGAII(NSGAII):
         self.tag = _next_tag(self.label, problem, population_size)
 
     def step(self):
-        if SLOW_FIRST["on"]:
-            time.sleep(UNIT * max(0, 3 - self.tag[2]))
+        if SLOW_FIRST["on"] and self.nfe == 0:
+            time.sleep(UNIT * 2 * max(0, 3 - self.tag[2]))
         super().step()
         r = TaggedResult(self.result)
         r.tag = (self.tag[0], self.tag[1], self.tag[2], len(self.population))
